@@ -40,7 +40,7 @@ RPEVerdict(c, o) ==
   IF Len(c.ref) # Len(c.est) THEN (IF o.out = "MetricsException" THEN "ok" ELSE "UnequalLengthsNotRefused")
   ELSE IF o.out = "FilterException" THEN (IF Ok(c.drv, c.q, <<>>) THEN "ok" ELSE "RefusedThoughPairsExist")
   ELSE IF o.out # "ok" THEN "UnexpectedError"
-  ELSE IF o.driver # (IF c.fromref THEN "ref" ELSE "est") THEN "PairsFromWrongTrajectory"
+  ELSE IF o.driver \notin {IF c.fromref THEN "ref" ELSE "est", "both"} THEN "PairsFromWrongTrajectory"      \* "both": the two trajectories hold the same poses
   ELSE IF ~InRange(c.drv, o.pairs) \/ ~Ok(c.drv, c.q, o.pairs) THEN "WrongPairs"
   ELSE LET keep == IF c.rel = "ratio" THEN SelectSeq(o.pairs, LAMBDA pr : SL(c.ref, pr[1], pr[2]) # 0) ELSE o.pairs IN
        IF Len(o.err) # Len(keep) THEN "NotOneValuePerPair"
